@@ -1,7 +1,6 @@
 use super::{vops::*, Matrix};
 use crate::linalg::{logmeanexp, logsumexp, norm, prod, sum};
 use crate::statistics::{argmax, argmin, max, mean, min, sample_std, sample_var, std, var};
-use approx_eq::rel_diff;
 use rayon::iter::FromParallelIterator;
 use serde::{Deserialize, Serialize};
 use std::convert::From;
@@ -13,6 +12,18 @@ use std::ops::{self, Deref, DerefMut, Neg};
 #[derive(Debug, Clone, Serialize, Deserialize)]
 pub struct Vector {
     pub v: Vec<f64>,
+}
+
+/// Relative difference between two values, taken on the signed difference, so that values of
+/// opposite sign are never close.
+fn rel_diff(x: f64, y: f64) -> f64 {
+    if x == 0. {
+        y.abs()
+    } else if y == 0. {
+        x.abs()
+    } else {
+        (x - y).abs() / x.abs().min(y.abs())
+    }
 }
 
 impl Vector {
